@@ -272,7 +272,25 @@ func e2eWorkerMain() {
 				"indexName": idx, "queryLanguage": "Splunk QL", "size": float64(size), "from": float64(from),
 			}
 			qid++
+			var done chan struct{}
+			if ts, _ := strconv.Atoi(os.Getenv("VERIF_QUERY_TIMEOUT_S")); ts > 0 {
+				// (C07) a query on a crashed-and-restarted directory may spin for ever; a spinning goroutine cannot be
+				// stopped, so the worker answers {"err":"query-never-returned"} and exits
+				done = make(chan struct{})
+				go func(done chan struct{}) {
+					select {
+					case <-done:
+					case <-time.After(time.Duration(ts) * time.Second):
+						fmt.Fprintln(out, `{"err":"query-never-returned"}`)
+						out.Flush()
+						os.Exit(0)
+					}
+				}(done)
+			}
 			resp, _, _, err := pipesearch.ParseAndExecutePipeRequest(body, qid, 0, time.Now(), "", nil)
+			if done != nil {
+				close(done)
+			}
 			res := map[string]interface{}{}
 			if err != nil {
 				res["err"] = err.Error()
